@@ -536,7 +536,7 @@ func (w *World) buildRequest(spec ReqSpec) (*http.Request, error) {
 	for _, kv := range spec.Header {
 		fmt.Fprintf(&raw, "%s: %s\r\n", kv[0], kv[1])
 	}
-	if spec.ID != "" {
+	if spec.ID != "" && spec.ID != "-" {
 		fmt.Fprintf(&raw, "X-Request-ID: %s\r\n", spec.ID)
 	}
 	if spec.Plan != "" {
